@@ -10,3 +10,5 @@ import ReuseVerif.Spec.Dep5
 import ReuseVerif.Generated.Spdx
 import ReuseVerif.Model.Report
 import ReuseVerif.Spec.Report
+import ReuseVerif.Model.Lint
+import ReuseVerif.Spec.Lint
